@@ -4,7 +4,9 @@ CONSTANTS WrapFix, Epoch
 Trace == ndJsonDeserialize(IOEnv.TRACE_FILE)
 VARIABLES l, number, validators, pending, recents, cons, last,
           announced, \* ground truth: the validator list carried by the last accepted epoch header (or installed by the creation / upgrade header)
-          sealed    \* ground truth kept by the trace itself: sealed[n] = sealer of the accepted header n (not the client's own records)
+          sealed    \* ground truth kept by the trace itself: sealed[n] = sealer of the accepted header n (not the client's own records),
+                    \* forgotten by Parlia's own retention rule (an entry leaves when it falls out of the window of the set in force at
+                    \* that moment; when the set shrinks the surplus entries leave; when it grows nothing comes back)
 Vals == {1, 2, 3, 4, 5, 6, 7}
 InitNumber == 0
 InitSet == {}
@@ -19,6 +21,17 @@ Hd(a) == [number |-> a.number, parentOK |-> a.parentOK, signer |-> a.signer, coi
 TInit == l = 0 /\ number = 0 /\ validators = {} /\ pending = {} /\ recents = <<>> /\ cons = {} /\ last = [act |-> "None", res |-> "ok"] /\ sealed = <<>> /\ announced = {}
 Report(k, name, holds) == holds \/ PrintT(<<"VIOL", k, name>>)
 IsStep(k) == ln(k).ev # "Reset"
+(* "has sealed one of the last floor(N/2) blocks", on the trace's own record of accepted sealers *)
+RecentByRecord(sg, n, vs) == LET limit == (Cardinality(vs) \div 2) + 1 IN
+   \E m \in DOMAIN sealed : sealed[m] = sg /\ (n < limit \/ m > USub(n, limit))
+(* the record after header n sealed by sg was accepted, the set going from vs to vs2 *)
+RecordAfter(n, sg, vs, vs2) ==
+   LET rec0 == (n :> sg) @@ sealed
+       oldLimit == (Cardinality(vs) \div 2) + 1
+       newLimit == (Cardinality(vs2) \div 2) + 1
+       drop1 == IF vs2 # vs /\ newLimit < oldLimit THEN { USub(USub(n, newLimit), i) : i \in 0..(oldLimit - newLimit - 1) } ELSE {}
+       drop2 == IF n >= newLimit THEN {n - newLimit} ELSE {}
+   IN Restrict(rec0, (DOMAIN rec0) \ (drop1 \cup drop2))
 Judge(k) ==
   /\ Report(k, "C09.ConsRootsAreHeaderRoots", ln(k).st.rootsok /\ ln(k).st.headok)
   /\ IsStep(k) =>
@@ -31,12 +44,12 @@ Judge(k) ==
           (ln(k).ev = "Update" /\ hd.structOK /\ hd.number = number + 1 /\ hd.parentOK /\ hd.coinbaseOK
             /\ ((hd.number % Epoch # 0) => hd.extra = {}) /\ ((hd.number % Epoch = 0) => hd.extra # {})
             /\ hd.signer \in validators
-            /\ hd.signer \notin { sealed[m] : m \in {x \in DOMAIN sealed : x >= hd.number - (Cardinality(validators) \div 2) /\ x < hd.number} }
+            /\ ~RecentByRecord(hd.signer, hd.number, validators)
             /\ hd.diff = (IF InTurn(validators, number, hd.signer) THEN 2 ELSE 1)) => ln(k).res = "ok")
      /\ Report(k, "C09.AcceptedIsChild", ok => (hd.number = number + 1 /\ hd.parentOK /\ hd.structOK /\ ((hd.number % Epoch # 0) => hd.extra = {}) /\ ((hd.number % Epoch = 0) => hd.extra # {})))
      /\ Report(k, "C09.SignerEligible", ok => Eligible(hd))
      (* the same clause against what really happened: the sealer sealed none of the last floor(N/2) accepted blocks *)
-     /\ Report(k, "C09.NotARecentSealer", ok => hd.signer \notin { sealed[m] : m \in {x \in DOMAIN sealed : x >= hd.number - (Cardinality(validators) \div 2) /\ x < hd.number} })
+     /\ Report(k, "C09.NotARecentSealer", ok => ~RecentByRecord(hd.signer, hd.number, validators))
      /\ Report(k, "C09.SetChangesOnlyAtOffset", (validators' # validators /\ ~upg) => (number' % Epoch = Cardinality(validators) \div 2 /\ validators' = pending'))
      (* ... and at that offset it does change to it *)
      /\ Report(k, "C09.SetSwitchesAtOffset", (ok /\ number' % Epoch = Cardinality(validators) \div 2) => validators' = pending')
@@ -57,7 +70,7 @@ TNext == LET k == l + 1 IN
   /\ last' = [act |-> ln(k).ev, res |-> ln(k).res]
   /\ sealed' = IF ln(k).ev = "Reset" THEN (ln(k).args.number :> ln(k).args.signer)
                ELSE IF ln(k).res = "ok" /\ ln(k).ev = "Upgrade" THEN (ln(k).args.hd.number :> ln(k).args.hd.signer)   \* the client starts over from the proposal's header
-               ELSE IF ln(k).res = "ok" THEN (ln(k).args.hd.number :> ln(k).args.hd.signer) @@ sealed ELSE sealed
+               ELSE IF ln(k).res = "ok" THEN RecordAfter(ln(k).args.hd.number, ln(k).args.hd.signer, validators, SetOf(ln(k).st.validators)) ELSE sealed
   /\ announced' = IF ln(k).ev = "Reset" THEN SetOf(ln(k).args.set)
                   ELSE IF ln(k).res = "ok" /\ (ln(k).ev = "Upgrade" \/ ln(k).args.hd.number % Epoch = 0) THEN SetOf(ln(k).args.hd.extra) ELSE announced
   /\ Judge(k) /\ Conform(k)
